@@ -188,15 +188,17 @@ def translate(ctx: Any) -> None:
 def run(ctx: Any) -> None:
     translate(ctx)
     ctx.prove(
-        ["prop/P_C10.vo", "refuted/R_C10.vo", "tie/T_WireLife.vo"],
+        ["prop/P_C10.vo", "refuted/R_C10.vo"],
         {
             "P_C10": [
                 "C10_producer_exact", "C10_producer_exact_http", "C10_emit_and_finish_delivers", "C10_exchange_one_per_input",
                 "C10_finish_refused_in_exchange", "C10_input_schema", "C10_header_once_first", "C10_after_cancel", "C10_after_cancel_http",
+                "C10_sessions_start_open",
             ],
-            "T_WireLife": ["life_guards_tie", "C10_source_finish_refused"],
         },
     )
+    # the tie is built separately: when the source no longer has the modelled shape the theorems above stay checked
+    ctx.prove(["tie/T_WireLife.vo"], {"T_WireLife": ["life_guards_tie", "C10_source_finish_refused"]})
     import pyarrow as pa
 
     from harness import c10_service as S
